@@ -18,7 +18,7 @@ TECHNIQUE = 'exhaustive enumeration of finalisation histories (close / context-m
 RULE = ('Histories write* followed by every sequence over {close(), context-manager exit} of length 1..3 (14 sequences; the '
         'first exit is a real with-statement holding the writes, later ones explicit __exit__ calls; plus 39 sequences over {close(), '
         '__exit__, a whole empty with-block} run after plain writes, so that a with-block is also entered after a finalisation) x {VbsWriter, IpmWriter} x {VBS, 1014} x '
-        '{BytesIO, real w+b file} x record lists (boundary list enumerated, further lists from Hypothesis). Oracle: a fresh '
+        '{BytesIO, real w+b file, real write-only wb file} x record lists (boundary list enumerated, further lists from Hypothesis). Oracle: a fresh '
         'reader from offset 0 returns exactly the records written, and the file bytes after the first finalisation are '
         'identical after every later one. Non-trivial = >= 2 finalisations with >= 1 record; distinct by (sequence, class, '
         'format, file kind, record lengths).')
@@ -54,7 +54,7 @@ def run_history(seq, records, ipm, blocked, real, scratch):
         expected = list(records)
     if real:
         path = scratch.path()
-        f = open(path, 'w+b')
+        f = open(path, 'wb' if real == 'wb' else 'w+b')
 
         def snap():
             f.flush()
@@ -108,7 +108,7 @@ def run_history(seq, records, ipm, blocked, real, scratch):
 
 
 def check(seq, records, ipm, blocked, real, scratch):
-    name = f"{'IpmWriter' if ipm else 'VbsWriter'}/{'1014' if blocked else 'vbs'}/{'file' if real else 'BytesIO'}"
+    name = f"{'IpmWriter' if ipm else 'VbsWriter'}/{'1014' if blocked else 'vbs'}/{('file-' + ('wb' if real == 'wb' else 'w+b')) if real else 'BytesIO'}"
     try:
         snaps, expected = run_history(seq, records, ipm, blocked, real, scratch)
     except Exception as ex:
@@ -155,7 +155,7 @@ def enumerate_histories(ctx, ipm, blocked, real):
                     ctx.report(res[0], {'seq': seq, 'lens': lens, 'ipm': ipm, 'blocked': blocked, 'real': real}, res[1])
     finally:
         scratch.cleanup()
-    ctx.bulk(n, nontrivial_distinct=nt, label=f"{'ipm' if ipm else 'vbs'}/{'1014' if blocked else 'plain'}/{'file' if real else 'mem'}")
+    ctx.bulk(n, nontrivial_distinct=nt, label=f"{'ipm' if ipm else 'vbs'}/{'1014' if blocked else 'plain'}/{('file-' + str(real)) if real else 'mem'}")
     ctx.enumerated('all 14 finalisation sequences over {close, exit} of length 1..3 (writes inside the with block) and all 39 sequences over {close, __exit__, whole with-block} of length 1..3 after the writes, x 10 record lists x writer class x format x file kind')
     if not real and not ipm:
         ctx.sample({'history': 'with writer: write(1008 bytes); write(1 byte); close()  [then leaving the with block]', 'seq': 'CX', 'blocked': blocked})
@@ -173,7 +173,8 @@ def hyp_histories(ctx, n):
         if res:
             ctx.fail(res[0], {'seq': seq, 'lens': lens, 'ipm': ipm, 'blocked': blocked, 'real': real}, res[1])
     strat = st.tuples(st.lists(st.one_of(st.sampled_from([1, 4, 1004, 1008, 1012, 2024]), st.sampled_from(range(1, 3001))), max_size=8),
-                      st.sampled_from(SEQS + SEQS_AFTER + ['CCCC', 'XCXC', 'CXCX', 'XXXX', '>WWWW', '>CWCW', '>WCXW']), st.booleans(), st.booleans(), st.booleans())
+                      st.sampled_from(SEQS + SEQS_AFTER + ['CCCC', 'XCXC', 'CXCX', 'XXXX', '>WWWW', '>CWCW', '>WCXW']), st.booleans(), st.booleans(),
+                      st.sampled_from([False, True, 'wb']))
     try:
         harness.drive(ctx, strat, body, n, salt='hist')
     finally:
@@ -184,7 +185,7 @@ def tasks(tier, seed):
     t = []
     for ipm in (False, True):
         for blocked in (False, True):
-            for real in (False, True):
+            for real in (False, True, 'wb'):
                 t.append(('enumerate_histories', dict(ipm=ipm, blocked=blocked, real=real)))
     for i in range(4 if tier == 'quick' else 16):
         t.append(('hyp_histories', dict(n=150 if tier == 'quick' else 800)))
